@@ -39,6 +39,8 @@ structure Tables where
   opFallbackAnyName : Bool
   nullVarUsesDefault : Bool
   argsInPlace : Bool
+  argsSortedOnce : Bool
+  reflectOptionalRefused : Bool
   eventVarsEmpty : Bool
   symbolBaseEnum : Bool
   inputDefaultsRaw : Bool
